@@ -204,17 +204,21 @@ pub fn check(c: &Case, obs: &mut Obs) -> Verdict {
         Err(p) => return Verdict::fail(format!("parser panicked: {} at {}", p.msg, p.loc)),
     };
     let rb = tool::calc(&crate::led::from_core(&parsed));
-    for (name, rv) in [("permuted/fill-split lines", &ra), ("lines distributed over files", &rb)] {
+    let parsed_l = crate::led::from_core(&parsed);
+    let mut f17 = false;
+    for (name, rv, lv) in [("permuted/fill-split lines", &ra, &v.permuted), ("lines distributed over files", &rb, &parsed_l)] {
         match (&r0, rv) {
-            (Outcome::Ok(a), Outcome::Ok(b)) => {
-                if let Err(e) = tool::reports_equivalent(a, b, obs) {
+            (Outcome::Ok(a), Outcome::Ok(b)) => match tool::equivalent_or_f17(a, base, b, lv, obs) {
+                tool::Equiv::Same => {}
+                tool::Equiv::F17 => f17 = true,
+                tool::Equiv::Different(e) => {
                     return Verdict::fail(format!(
                         "report changes with {name}: {e}\n--- base ---\n{}\n--- variant ---\n{}",
                         crate::led::to_dsl(base),
                         joined
                     ));
                 }
-            }
+            },
             (Outcome::Err(_), Outcome::Err(_)) => {
                 obs.class("both_rejected");
             }
@@ -231,6 +235,9 @@ pub fn check(c: &Case, obs: &mut Obs) -> Verdict {
                 ));
             }
         }
+    }
+    if f17 {
+        return tool::f17_verdict();
     }
     Verdict::Pass
 }
